@@ -530,6 +530,12 @@ def text_twice(ses, rep, N=4):
                     continue
                 newtok = deref_val(ex, o.state, o.value.fields[0])
                 tv = deref_val(ex, o.state, ex.havoc_calls[newtok.oid][1][0]) if isinstance(newtok, Lazy) and newtok.oid in ex.havoc_calls else None
+                if isinstance(tv, Lazy) and tv.oid in ex.havoc_calls and _depth < 3:
+                    # the whole token type comes out of an extracted helper: inline it
+                    g = ex.resolve(ex.havoc_raw.get(tv.oid, ex.havoc_calls[tv.oid][0]))
+                    if g is not None and g.blocks and g.name not in extra_inline:
+                        extra_inline.add(g.name)
+                        return run_once(text, _depth + 1)
                 if not (isinstance(tv, Agg) and tv.variant == kind):
                     continue
                 ot = deref_val(ex, o.state, tv.fields[[f_[0] for f_ in vdef[2]].index(c10.KIND_TEXT[kind])])
